@@ -51,8 +51,10 @@ func runC12(c *sim.Ctx) {
 	c.Log.Add("sim", "image", "bytes=%d ops=%d cache=%d", len(img), len(family), cache)
 	c.Sample = map[string]interface{}{"image_bytes": len(img), "operations": len(family), "cache_pages": cache, "tables": len(snap.Tables)}
 	maxK := 400
+	execBudget := 30000 // faulted executions per run; beyond it every operation is sampled at ~24 positions
 	if c.Tier == "thorough" {
 		maxK = 4000
+		execBudget = 150000
 	}
 
 	open := func(m *pg.Mem) (h handle, err error) {
@@ -94,6 +96,10 @@ func runC12(c *sim.Ctx) {
 		step := 1
 		if n > maxK {
 			step = n/maxK + 1
+		}
+		if int(c.Stats["eval"]) > execBudget && n > 24 {
+			step = n/24 + 1
+			c.Inc("ops_sampled_after_run_budget", 1)
 		}
 		for k := 1; k <= n; k += step {
 			if step > 1 && k > 64 {
